@@ -13,8 +13,9 @@ functions run in the drivers (numbers modulo the group order, points in the
 discrete-log representation, `Model/VssZr.lean`) and are reasoned about over any
 field and module in `Proofs/Vss*.lean`.  `g` is the group's base point.
 
-Go pointer mutation becomes returned state; every Go `map[uint32]*Response` is an
-association list (at most one entry per index is an invariant of `addResponse`).
+Go pointer mutation becomes returned state; every Go `map[uint32]*Response` is a list of
+optional entries indexed by the key (`addResponse` only ever stores keys below
+`len(verifiers)`, so the map is an array of that length; entry `none` = key absent).
 The code modelled is the tree WITH the `fix:` commits c536de3 (nonce length), 4c3770c
 (deal without share / value) and 386c5d2 (session id bound to the commitments).
 -/
@@ -145,7 +146,7 @@ structure Agg (S P : Type) where
   t : Nat
   sid : Sid P
   deal : Option (Deal S P)
-  responses : List (Response S P)
+  responses : List (Option (Response S P))   -- slot `i` = `responses[uint32(i)]`
   badDealer : Bool
   deriving DecidableEq, Repr
 
@@ -218,7 +219,8 @@ def decryptDeal (g : P) (v : Verifier S P) (e : EncDeal S P) : Except Err (Deal 
 
 /-- `newAggregator` -/
 def newAgg (dealer : P) (vs commits : List P) (t : Nat) (sid : Sid P) : Agg S P :=
-  { dealer := dealer, vs := vs, commits := commits, t := t, sid := sid, deal := none, responses := [], badDealer := false }
+  { dealer := dealer, vs := vs, commits := commits, t := t, sid := sid, deal := none,
+    responses := List.replicate vs.length none, badDealer := false }
 
 /-- `aggregator.VerifyDeal(d, inclusion)`: new state and `none` for success -/
 def verifyDeal (g : P) (a : Agg S P) (d : Deal S P) (inclusion : Bool) : Agg S P × Option VErr :=
@@ -238,13 +240,16 @@ def verifyDeal (g : P) (a : Agg S P) (d : Deal S P) (inclusion : Bool) : Agg S P
         else if val • g = pubEval (S := S) d.commits sh.i then (a1, none)
         else (a1, some .share)
 
-def hasResponse (a : Agg S P) (i : Nat) : Bool := a.responses.any (fun r => r.index = i)
+/-- `a.responses[uint32(i)]` -/
+def getResponse (a : Agg S P) (i : Nat) : Option (Response S P) := (a.responses[i]?).join
+
+def hasResponse (a : Agg S P) (i : Nat) : Bool := (getResponse a i).isSome
 
 /-- `aggregator.addResponse` -/
 def addResponse (a : Agg S P) (r : Response S P) : Except Err (Agg S P) :=
   if r.index ≥ a.vs.length then .error .respIndex
   else if hasResponse a r.index then .error .respDup
-  else .ok { a with responses := a.responses ++ [r] }
+  else .ok { a with responses := a.responses.set r.index (some r) }
 
 /-- `aggregator.verifyResponse` -/
 def verifyResponse (g : P) (a : Agg S P) (r : Response S P) : Except Err (Agg S P) :=
@@ -300,7 +305,7 @@ def Verifier.unsafeSetResponse (v : Verifier S P) (idx : Nat) (approval : Bool) 
 
 /-- `aggregator.EnoughApprovals` -/
 def enoughApprovals (a : Agg S P) : Bool :=
-  decide ((a.responses.filter (fun r => r.status)).length ≥ a.t)
+  decide ((a.responses.filter (fun r => match r with | some r => r.status | none => false)).length ≥ a.t)
 
 /-- `aggregator.DealCertified` on a non-nil aggregator -/
 def Agg.certified (a : Agg S P) : Bool :=
@@ -320,13 +325,13 @@ def Verifier.dealOut (v : Verifier S P) : Option (Option (Deal S P)) :=
   | some a => some (if enoughApprovals a && a.certified then a.deal else none)
 
 /-- set the status of the stored response of `idx` to approval (`r.Status = StatusApproval` through the shared pointer) -/
-def approveStored (rs : List (Response S P)) (idx : Nat) : List (Response S P) :=
-  rs.map (fun r => if r.index = idx then { r with status := true } else r)
+def approveStored (rs : List (Option (Response S P))) (idx : Nat) : List (Option (Response S P)) :=
+  rs.modify idx (fun r => r.map (fun r => { r with status := true }))
 
 /-- `aggregator.verifyJustification(j)` with `j = (Index, Deal)` (the signature of a justification is never checked by the code) -/
 def verifyJustification (g : P) (a : Agg S P) (idx : Nat) (d : Deal S P) : Agg S P × Option Err :=
   if idx ≥ a.vs.length then (a, some .justIndex)
-  else match a.responses.find? (fun r => r.index = idx) with
+  else match getResponse a idx with
     | none => (a, some .justNoComplaint)
     | some r =>
       if r.status = true then (a, some .justApproval)
